@@ -80,6 +80,17 @@ def gen_cases(tier, seed):
                                 cs = cs[::-1]
                             for W in (1, 2, 3, n):
                                 yield dict(kind="cutoff", n=n, fh=fh, W=W, cutoffs=cs, **r())
+        # the same splitter instance asked about a second series of another length (nothing may be
+        # remembered from the first series)
+        if n in (8, 11):
+            for kind in ("sliding", "expanding", "single"):
+                for fh in ([1], [1, 3], [2]):
+                    for W in (2, 4):
+                        for s in ((1, 2) if kind != "single" else (1,)):
+                            for n2 in (6, 9, 12):
+                                for order in ("nsc", "csn", "scn"):
+                                    yield dict(kind="reuse", splitter=kind, n=n, n2=n2, fh=fh, W=W,
+                                               s=s, order=order)
         # temporal_train_test_split
         for withX in (False, True):
             sizes = [None] + list(range(1, n)) + [("f", k) for k in range(1, n)]
@@ -159,6 +170,8 @@ def run_case(case):
     n = case["n"]
     if kind in ("tts", "tts_fh"):
         return _run_tts(case, res)
+    if kind == "reuse":
+        return _run_reuse(case, res)
     fh = case["fh"]
     W = case["W"]
     y = _mk_y(n, case["yk"])
@@ -215,6 +228,56 @@ def run_case(case):
     if not ns.ok or ns.value != len(exp):
         res.violate(kind + ":get_n_splits", "reported number of splits differs",
                     expected=len(exp), observed=ns.value if ns.ok else ns.brief())
+    return res
+
+
+def _run_reuse(case, res):
+    from sktime.forecasting.model_selection import (
+        ExpandingWindowSplitter, SingleWindowSplitter, SlidingWindowSplitter)
+
+    k, fh, W, s = case["splitter"], case["fh"], case["W"], case["s"]
+    if k == "sliding":
+        cv = SlidingWindowSplitter(fh=fh, window_length=W, step_length=s)
+    elif k == "expanding":
+        cv = ExpandingWindowSplitter(fh=fh, initial_window=W, step_length=s)
+    else:
+        cv = SingleWindowSplitter(fh=fh, window_length=W)
+
+    def ask(n, order):
+        y = _mk_y(n, "range")
+        out = {}
+        for ch in order:
+            if ch == "n":
+                out["n"] = int(cv.get_n_splits(y))
+            elif ch == "c":
+                out["c"] = [int(c) for c in cv.get_cutoffs(y)]
+            else:
+                out["s"] = [(list(map(int, a)), list(map(int, b))) for a, b in cv.split(y)]
+        return out
+
+    def expect(n):
+        e = ref.single_fold(n, fh, W) if k == "single" else ref.window_folds(k, n, fh, W, s, True)
+        return e
+
+    e1, e2 = expect(case["n"]), expect(case["n2"])
+    if e1 is None or e2 is None:
+        return res
+    first = call(ask, case["n"], case["order"])
+    second = call(ask, case["n2"], case["order"])
+    res.outcome("reuse:%s:%s" % (first.kind, second.kind))
+    if not first.ok or not second.ok:
+        res.violate("reuse:raises", "splitter raised when used for a second series",
+                    observed=(first.brief(), second.brief()))
+        return res
+    res.nt(("reuse", k, case["n"], case["n2"], tuple(fh), W, s, case["order"]))
+    want = dict(n=len(e2), c=[c for _, _, c in e2], s=[(a, b) for a, b, _ in e2])
+    for key in ("n", "c", "s"):
+        if second.value[key] != want[key]:
+            res.violate("reuse:%s:%s" % (k, {"n": "get_n_splits", "c": "get_cutoffs",
+                                               "s": "split"}[key]),
+                        "a splitter that was used on another series before answers differently "
+                        "from a fresh one", expected=want[key], observed=second.value[key])
+            return res
     return res
 
 
